@@ -2,8 +2,13 @@ package pipeline
 
 import (
 	"context"
+	"errors"
 
 	"github.com/streamingfast/bstream"
+	"github.com/streamingfast/substreams/manifest"
+	"github.com/streamingfast/substreams/orchestrator/plan"
+	pbsubstreamsrpc "github.com/streamingfast/substreams/pb/sf/substreams/rpc/v2"
+	"github.com/streamingfast/substreams/pipeline/exec"
 	"github.com/streamingfast/substreams/reqctx"
 	sym "github.com/streamingfast/substreams/zz_verifsym"
 )
@@ -56,4 +61,121 @@ func VerifC04Gate() {
 	}
 	_ = ended
 	sym.Reach("done")
+}
+
+// c04Delivery runs resolution and planning for one request (glue of
+// Tier1Service.blocks mirrored as in VerifC12Plan) and returns, for a probe
+// block x, whether the plan delivers it: x lies in the cached-output read
+// range, or in the linear range at or above the gate.
+func c04Delivery(request *pbsubstreamsrpc.Request, size uint64, outInit uint64, nStores int,
+	getLib func() (uint64, error), resolve CursorResolver, x uint64) (details *reqctx.RequestDetails, undo *pbsubstreamsrpc.BlockUndoSignal, delivered bool, status string) {
+	execGraph, err := exec.NewOutputModuleGraph(request.OutputModule, request.ProductionMode, request.Modules, 0)
+	if err != nil {
+		return nil, nil, false, "graph-rejected"
+	}
+	noHead := func() (uint64, error) { return 0, errors.New("unused") }
+	details, undo, err = BuildRequestDetails(context.Background(), request, getLib, resolve, noHead, size)
+	if err != nil {
+		return nil, nil, false, "details-error"
+	}
+	S, H, G, E := details.ResolvedStartBlockNum, details.LinearHandoffBlockNum, details.LinearGateBlockNum, details.StopBlockNum
+	if S == E && E != 0 {
+		return details, undo, false, "start-equals-stop"
+	}
+	if err := execGraph.ValidateRequestStartBlock(S); err != nil {
+		return details, undo, false, "start-rejected"
+	}
+	scheduleStores := execGraph.StagedUsedModules()[0].LastLayer().IsStoreLayer()
+	var lowestStoresInitBlock uint64
+	if scheduleStores {
+		lowestStoresInitBlock = *execGraph.LowestStoresInitBlock()
+	}
+	p, err := plan.BuildTier1RequestPlan(details.ProductionMode, size, execGraph.LowestInitBlock(), lowestStoresInitBlock, S, H, E, scheduleStores)
+	if err != nil {
+		return details, undo, false, "plan-error"
+	}
+	belowStop := sym.Or(E == 0, x < E)
+	inRead := false
+	if p.ReadExecOut != nil {
+		inRead = sym.And(x >= p.ReadExecOut.StartBlock, x < p.ReadExecOut.ExclusiveEndBlock)
+	}
+	inLinear := false
+	if p.LinearPipeline != nil {
+		// Pipeline: blocks of the linear range flow from the hand-off, outputs from the gate block on
+		inLinear = sym.And(sym.And(x >= p.LinearPipeline.StartBlock, x >= G), belowStop)
+	}
+	return details, undo, sym.Or(inRead, inLinear), "ok"
+}
+
+// VerifC04Resume: a request is re-sent with the cursor of a delivered final
+// block N (same start block, same stop block, finality possibly further): the
+// blocks the resumed request delivers are exactly the delivered blocks of the
+// original request above N, for every mode, segment size, module initial
+// blocks and finality, decided for an arbitrary probe block.
+func VerifC04Resume() {
+	manifest.TestUseSimpleHash = true
+	shape := c12ShapeOrder[sym.Choice("shape", sym.Param("SHAPES", 7))]
+	mods, outName, outInit, storeInits := c12Graph(shape)
+	prod := sym.Choice("production", 2) == 1
+	size := c12Sizes[sym.Choice("size", sym.Param("SIZES", len(c12Sizes)))]
+
+	const lim = 1 << 40
+	start := sym.I64("start")
+	stop := sym.U64("stop")
+	sym.Assume(start >= 0)
+	sym.Assume(start <= lim)
+	sym.Assume(stop <= lim)
+	sym.Assume(sym.Or(stop == 0, stop > uint64(start)))
+	x := sym.U64("x")
+	n := sym.U64("resume-after")
+	sym.Assume(n <= lim)
+
+	// the original request was served: its start block is not below the output module's
+	// initial block (ValidateRequestStartBlock); an invalid graph is rejected for both requests alike
+	sym.Assume(uint64(start) >= outInit)
+	// N is a block the original stream delivered: by C12 (VerifC12Plan, cover-exact) the
+	// served original request delivers exactly the blocks of [start, stop)
+	sym.Assume(n >= uint64(start))
+	sym.Assume(sym.Or(stop == 0, n < stop))
+
+	// the client resumes from the cursor of final block N: step new+irreversible, LIB = the block itself
+	ref := bstream.NewBlockRef("nn", n)
+	cur := &bstream.Cursor{Step: bstream.StepNewIrreversible, Block: ref, LIB: ref, HeadBlock: ref}
+	// N is final
+	libKnown2 := sym.Choice("lib-known-on-resume", 2) == 1
+	lib2 := sym.U64("lib-on-resume")
+	sym.Assume(lib2 <= lim)
+	sym.Assume(lib2 >= n)
+	getLib2 := func() (uint64, error) {
+		if !libKnown2 {
+			return 0, errors.New("no final block")
+		}
+		return lib2, nil
+	}
+	called := false
+	resolve := func(ctx context.Context, c *bstream.Cursor) (bstream.BlockRef, bstream.BlockRef, error) {
+		called = true
+		return nil, nil, errors.New("unused for a final cursor")
+	}
+	again := &pbsubstreamsrpc.Request{StartBlockNum: start, StopBlockNum: stop, Modules: mods, OutputModule: outName, ProductionMode: prod, StartCursor: cur.ToOpaque()}
+	details, undo, resumedX, st2 := c04Delivery(again, size, outInit, len(storeInits), getLib2, resolve, x)
+	switch st2 {
+	case "details-error":
+		// production without finality information and without stop block cannot be resolved, cursor or not
+		sym.Assert(sym.And(prod && !libKnown2, stop == 0), "resume-error-only-when-unresolvable")
+		return
+	case "start-equals-stop":
+		sym.Reach("resume-after-last-block")
+		sym.Assert(sym.And(stop != 0, n+1 == stop), "nothing-left-only-after-the-last-block")
+		return
+	case "ok":
+	default:
+		sym.Unreachable("resumed-request-served")
+		return
+	}
+	sym.Reach("resumed")
+	sym.Assert(!called, "final-cursor-does-not-consult-the-fork-resolver")
+	sym.Assert(undo == nil, "final-cursor-no-undo")
+	sym.Assert(details.ResolvedStartBlockNum == n+1, "resume-starts-right-after-the-cursor-block")
+	sym.Assert(resumedX == sym.And(x > n, sym.Or(stop == 0, x < stop)), "resumed-stream-is-the-suffix-after-the-cursor-block")
 }
